@@ -1,3 +1,4 @@
+mod capi;
 mod driver;
 mod framework;
 mod wl;
@@ -41,7 +42,7 @@ fn main() {
                 usage();
             }
             let Some(p) = props::by_id(&args[2]) else { std::process::exit(2) };
-            std::process::exit(framework::check_case_child(p.as_ref(), std::path::Path::new(&args[3])));
+            capi::exit_now(framework::check_case_child(p.as_ref(), std::path::Path::new(&args[3])));
         }
         "explore-child" => {
             // explore-child <ID> <tier> <seed> <from> <to>
@@ -53,7 +54,7 @@ fn main() {
             let seed: u64 = args[4].parse().unwrap_or(0);
             let from: u64 = args[5].parse().unwrap_or(0);
             let to: u64 = args[6].parse().unwrap_or(0);
-            std::process::exit(framework::explore_child(p.as_ref(), tier, seed, from, to));
+            capi::exit_now(framework::explore_child(p.as_ref(), tier, seed, from, to));
         }
         "replay" => {
             if args.len() < 4 {
